@@ -209,7 +209,7 @@ Definition clear (d : hd) : hd := clear_go (length d) d.
 
 Definition content_specific_headers : list str :=
   [ S!"Content-Encoding"; S!"Content-Language"; S!"Content-Location";
-    S!"Content-Type"; S!"Content-Length"; S!"Digest"; S!"Last-Modified" ].
+    S!"Content-Type"; S!"Content-Length"; S!"Transfer-Encoding"; S!"Digest"; S!"Last-Modified" ].
 Definition prepare_for_method_change (d : hd) : hd :=
   fold_left (fun d h => discard h d) content_specific_headers d.
 
